@@ -18,7 +18,7 @@ def check(run):
     files, _ = run.gen("serial")
     accepted, ids = run.validate(files, SPECDIR, "Serial_Trace.tla", "Serial_Trace.cfg")
     run.cov["traces_validated_against_impl"] += len(accepted)
-    run.count_distinct(files, key=lambda e, s: [e[0], e[1] if e[0] != "out" else len(e[1]), e[2] if len(e) > 2 else None])
+    run.count_distinct(files, key=lambda e, s: [e[0], (e[1] if e[0] != "out" else len(e[1])) if len(e) > 1 else None, e[2] if len(e) > 2 else None])
     run.note_samples(files, k=2)
     run.cov["rule"] = ("bus = random writes/reads on the I/O page through the Mapper with the hardware ticking; prog = generated programs (LDH (01),A / LDH (02),A / LD (HL),n / LD (FF00+C),A with random bytes between other I/O) "
                        "run on the full machine, every CPU write logged by the bus hook; the writer's buffer is compared with the SB writes at random points and at the end; with and without a writer configured; rom = blargg ROMs run for 1.2 M (thorough 6 M) cycles, their serial transcript compared with the logged SB writes. "
